@@ -2,7 +2,7 @@
 from fractions import Fraction
 
 ID = "C14"
-PROP_FILES = ["Properties/C14.v"]
+PROP_FILES = ["Properties/C14.v", "Properties/C14_affine.v"]
 THEOREMS = ["C14_center_mean0", "C14_center_same_map_on_later_data", "C14_scale_mean0_var1",
             "C14_scale_same_map_on_later_data", "C14_bs_ncols", "C14_bs_nonneg", "C14_bs_partition_of_unity",
             "C14_bs_partition_of_unity_everywhere", "C14_bs_rejects", "C14_poly_orthonormal", "C14_poly_raw_powers"]
@@ -96,6 +96,10 @@ def gen(rng, tier):
         if t == "poly":
             c["degree"] = rng.choice([1, 2, 3, 4, 5, 6])
             c["raw"] = rng.random() < 0.3
+            if rng.random() < 0.25:
+                # later data with as many rows as the training data (a second sample of the same size): what was
+                # returned for the training data is still the training result afterwards
+                c["ys"] = [str(Fraction(v) + Fraction(rng.randint(1, 5), 2)) for v in xs]
         cases.append(c)
     return cases
 
@@ -180,7 +184,12 @@ def _call(c):
                   upper_bound=None if c["upper"] is None else float(Fraction(c["upper"])))
         return o, o(xs, **kw), o(ys, **kw)
     o = Polynomial()
-    return o, o(xs, degree=c["degree"], raw=c["raw"]), o(ys, degree=c["degree"], raw=c["raw"])
+    a = o(xs, degree=c["degree"], raw=c["raw"])
+    a_then = np.array(a, copy=True)
+    b = o(ys, degree=c["degree"], raw=c["raw"])
+    if a.shape == a_then.shape and not np.array_equal(a, a_then, equal_nan=True):
+        raise AssertionError("the array returned for the training data changed when the transform was applied to later data")
+    return o, a, b
 
 
 def _via_formula(c, xs, ys, A, B):
